@@ -238,26 +238,55 @@ def _loop_descriptor(R, fbody, n):
         lhs, rhs = rhs, lhs
         op = {'<': '>', '>': '<', '<=': '>=', '>=': '<=', '!=': '!='}[op]
     var = _var_id(lhs)
+    # a walk by pointer: `p < t->list + t->count` is `index < t->count` for p = t->list + index
+    ptr_base = None
+    if var is not None and cast.kind(rhs) == 'BinaryOperator' and rhs.get('opcode') == '+' and '*' in cast.qual_type(rhs):
+        x, y = (cast.strip_all_casts(z) for z in rhs['inner'])
+        if cast.kind(y) == 'MemberExpr' and '*' in cast.qual_type(y):
+            x, y = y, x
+        if cast.kind(x) == 'MemberExpr' and x.get('name') in ('entry', 'area') and cast.kind(y) == 'MemberExpr' \
+                and y.get('name') == {'entry': 'entries', 'area': 'areas'}[x.get('name')]:
+            ptr_base, rhs = x.get('name'), y
     if var is None or cast.kind(rhs) != 'MemberExpr' or rhs.get('name') not in ('entries', 'areas'):
         return None
     field = rhs.get('name')
+
+    def start_of(e):
+        # start index of a pointer walk: t->list -> 0, t->list + c / &t->list[c] -> c
+        e = cast.strip_all_casts(e)
+        if cast.kind(e) == 'MemberExpr' and e.get('name') == ptr_base:
+            return 0
+        if cast.kind(e) == 'BinaryOperator' and e.get('opcode') == '+':
+            a, b = (cast.strip_all_casts(z) for z in e['inner'])
+            if cast.kind(b) == 'MemberExpr' and b.get('name') == ptr_base:
+                a, b = b, a
+            if cast.kind(a) == 'MemberExpr' and a.get('name') == ptr_base:
+                return R.u.const_value(b)
+        if cast.kind(e) == 'UnaryOperator' and e.get('opcode') == '&':
+            s_ = cast.strip_all_casts(e['inner'][0])
+            if cast.kind(s_) == 'ArraySubscriptExpr':
+                a, b = (cast.strip_all_casts(z) for z in s_['inner'])
+                if cast.kind(a) == 'MemberExpr' and a.get('name') == ptr_base:
+                    return R.u.const_value(b)
+        return None
+    cval = R.u.const_value if ptr_base is None else start_of
     # start value: the for-init, else the last constant given to the variable before the loop (declaration or assignment)
     startv = None
     line = cast.node_line(n)
     if init is not None and cast.kind(init) == 'DeclStmt':
         d = cast.inner(init)[0]
         if d.get('id') == var and d.get('inner'):
-            startv = R.u.const_value(d['inner'][0])
+            startv = cval(d['inner'][0])
     elif init is not None and _step_of(R, init, var) == 'assigned':
-        startv = R.u.const_value(cast.strip_all_casts(init)['inner'][1])
+        startv = cval(cast.strip_all_casts(init)['inner'][1])
     if startv is None:
         for x in cast.walk(fbody):
             if x is n:
                 break
             if cast.kind(x) == 'VarDecl' and x.get('id') == var and x.get('inner'):
-                startv = R.u.const_value(x['inner'][-1])
+                startv = cval(x['inner'][-1])
             elif cast.kind(x) == 'BinaryOperator' and x.get('opcode') == '=' and _var_id(x['inner'][0]) == var:
-                startv = R.u.const_value(x['inner'][1])
+                startv = cval(x['inner'][1])
             elif _step_of(R, x, var) not in (None, 'assigned') and cast.kind(x) != 'BinaryOperator':
                 startv = None
     # the advance
